@@ -96,3 +96,17 @@ package service
 //@ loop 1 invariant len(matchingEntries) == cntE(r.(*klog.record).entries, t, rangeindex+1)
 //@ loop 1 invariant forall(k, 0, len(matchingEntries), klog.ekind(matchingEntries[k]))
 //@ loop 1 invariant forall(i, 0, rangeindex+1, 0 <= cntE(r.(*klog.record).entries, t, i) && cntE(r.(*klog.record).entries, t, i) <= len(matchingEntries) && implies(tOk(r.(*klog.record).entries[i], t), cntE(r.(*klog.record).entries, t, i) < len(matchingEntries) && same(matchingEntries[cntE(r.(*klog.record).entries, t, i)], r.(*klog.record).entries[i])))
+
+// ---------------------------------------------------------------------------------------------
+// record.go — CloseOpenRanges (--now; properties C02 and C17): every open range is closed at the given instant,
+// written relative to the record's date: the plain time of day for a record dated that day, the same time shifted
+// by +24h for a record dated the day before; any other record with an open range makes the call fail. The cut states
+// this for the time handed to EndOpenRange, for every record of the list on every iteration.
+//@ func CloseOpenRanges
+//@ requires 0 <= gotime_year(endTime) && gotime_year(endTime) <= 9999 && dn(gotime_year(endTime), gotime_month(endTime), gotime_day(endTime)) >= 1
+//@ requires forall(i, 0, len(rs), typeis(rs[i], *klog.record) && typeis(rs[i].(*klog.record).date, *klog.date))
+//@ before EndOpenRange assert typeis(end, *klog.time) && (rdn(r) == dn(gotime_year(endTime), gotime_month(endTime), gotime_day(endTime)) || rdn(r) == dn(gotime_year(endTime), gotime_month(endTime), gotime_day(endTime)) - 1) && klog.off(end) == 60*gotime_hour(endTime) + gotime_minute(endTime) + 1440*(dn(gotime_year(endTime), gotime_month(endTime), gotime_day(endTime)) - rdn(r))
+//@ noframe
+//@ ensures implies(result0, result1 == nil)
+//@ loop 1 invariant typeis(thisDay, *klog.date) && klog.ddn(thisDay) == dn(gotime_year(endTime), gotime_month(endTime), gotime_day(endTime)) && typeis(theDayBefore, *klog.date) && klog.ddn(theDayBefore) == klog.ddn(thisDay) - 1
+//@ loop 1 invariant forall(i, 0, len(rs), typeis(rs[i], *klog.record) && typeis(rs[i].(*klog.record).date, *klog.date))
